@@ -75,6 +75,8 @@ def compare_case(prop, case_line, il, ml):
     fails = []
     if il == ml and il is not None:
         return fails, None, None
+    if il == '(DIVERGED)' and ml is not None and 'DIVERGED' in ml:
+        return fails, None, None
     case_tree = sexp.parse(case_line)
     if il is None or ml is None:
         fails.append({'kind': 'missing-output', 'what': 'impl' if il is None else 'model',
@@ -125,7 +127,9 @@ def run_check(prop, tier, seed):
                 violations.append({'kind': 'alphabet', 'detail': {'impl': a1[:400], 'model': a2[:400]},
                                    'case': '(alphabet)'})
         cases = prop.corpus() + prop.cases(tier, rng)
-        impl, model, info = core.run_both(prop.id, cases, prop.impl_argv, prop.model_argv)
+        impl, model, info = core.run_both(prop.id, cases, prop.impl_argv, prop.model_argv,
+                                          timeout=getattr(prop, 'run_timeout', {}).get(tier, 600),
+                                          supervise=getattr(prop, 'supervise', None))
         for idx, case_line in enumerate(cases):
             il, ml = impl[idx], model[idx]
             evaluations += 1
@@ -141,6 +145,17 @@ def run_check(prop, tier, seed):
                         known_met.setdefault(kid, f)
                     else:
                         violations.append(f)
+            if il is not None and (il.startswith('(DIVERGED)') or il.startswith('(CRASHED')):
+                case_tree = case_tree or sexp.parse(case_line)
+                f = {'kind': 'diverged' if il.startswith('(DIVERGED)') else 'crashed', 'case': case_line,
+                     'detail': {'what': 'the implementation did not return within the per-case time limit' if il.startswith('(DIVERGED)')
+                                else 'the harness process died on this case: ' + il, 'model': (ml or '')[:200]}}
+                kid = prop.classify(case_tree, f)
+                if kid:
+                    known_met.setdefault(kid, f)
+                else:
+                    violations.append(f)
+                continue
             if il is not None:
                 if it is None:
                     it = sexp.parse(il)
